@@ -28,6 +28,7 @@ CONSTRUCTS = {
  'let_let_with': "let\n  a = 1;\nin\nlet\n  b = 2;\nin\nwith a;\nb", 'let_let_if': "let\n  a = 1;\nin\nlet\n  b = 2;\nin\nif a then b else a", 'let_let_lambda': "let\n  a = 1;\nin\nlet\n  b = 2;\nin\nx: a",
  'let_let_select': "let\n  a = 1;\nin\nlet\n  b = 2;\nin\na.b.c", 'let_let_binary': "let\n  a = 1;\nin\nlet\n  b = 2;\nin\na + b", 'let_let_paren': "let\n  a = 1;\nin\nlet\n  b = 2;\nin\n(a)",
  'let_let_assert': "let\n  a = 1;\nin\nlet\n  b = 2;\nin\nassert a;\nb", 'let_let_string': "let\n  a = 1;\nin\nlet\n  b = 2;\nin\n\"s\"",
+ 'inherit_from_multi': "{\n  inherit\n    (import ./lib.nix {\n      inherit pkgs;\n    })\n    foo\n    bar\n    ;\n  version = 1;\n}", 'inherit_from_multi_1line': "{\n  inherit (import ./lib.nix {\n    inherit pkgs;\n  }) foo bar;\n  version = 1;\n}",
  'empty_list': "[ ]", 'empty_set': "{ }", 'empty_rec_set': "rec { }", 'empty_list_call': "f [ ] { }",
  'attrpath_quoted': "{\n  \"a\".b.\"c d\".e = 1;\n}", 'attrpath_interp': "{\n  ${x}.b.\"${y}\".c = 1;\n}",
  'dup_attrpath_sets': "{\n  a.b = {\n    x = 1;\n  };\n  a.b = {\n    y = 2;\n  };\n}", 'dup_attrpath_sets_apart': "{\n  s.n = {\n    e = true;\n  };\n  z = 1;\n  s.n = {\n    u = 2;\n  };\n}",
@@ -45,8 +46,9 @@ KINDS = {
  'ml_b_tab': '\n\t/* first\n\t   second */\n', 'ml_b_tab2': '\n/* a\n\tb\n \tc */\n',
  'ml_b_under': ' /* alpha\nbeta */ ', 'ml_b_under_own': '\n    /* title\n  body line\nlast */\n', 'ml_doc_under': ' /** alpha\n beta\nc */\n',
 }
-WS_KINDS = {'sp', 'sp2', 'tab', 'nl', 'nl_ind', 'blank', 'blank3'}
-LINE_LEVEL = {'own_c_ind', 'ml_b_tab', 'ml_b_tab2', 'ml_b_under_own', 'eol_c', 'own_c', 'own_c_blank', 'own_b', 'ml_b', 'doc_b', 'hash_nospace', 'eol_c_blank', 'eol_b_blank', 'own_c_two', 'blank_own_c', 'own_c_blank_after', 'tight_eol_c'}       # comment alone on a line or at the end of one
+TAIL_KINDS = {'tail_own_c': '\n# t\n', 'tail_eol_c': ' # t\n', 'tail_blank_own_c': '\n\n# t\n', 'tail_own_b': '\n/* t */\n', 'tail_eol_b': ' /* t */\n', 'tail_two_own_c': '\n# t\n# u\n', 'tail_own_c_noeol': '\n# t', 'tail_nl': '\n', 'tail_blank': '\n\n'}
+WS_KINDS = {'tail_nl', 'tail_blank', 'sp', 'sp2', 'tab', 'nl', 'nl_ind', 'blank', 'blank3'}
+LINE_LEVEL = {'tail_own_c', 'tail_eol_c', 'tail_blank_own_c', 'tail_own_b', 'tail_eol_b', 'tail_two_own_c', 'tail_own_c_noeol', 'own_c_ind', 'ml_b_tab', 'ml_b_tab2', 'ml_b_under_own', 'eol_c', 'own_c', 'own_c_blank', 'own_b', 'ml_b', 'doc_b', 'hash_nospace', 'eol_c_blank', 'eol_b_blank', 'own_c_two', 'blank_own_c', 'own_c_blank_after', 'tight_eol_c'}       # comment alone on a line or at the end of one
 CONTEXTS = {'lambda_body': lambda e: 'x:\n' + e, 'top': lambda e: e, 'lead_ws': lambda e: '\n   ' + e,        # lead_ws: the file starts with whitespace (fifth round: gaps were read at shifted offsets)
             'bindval': lambda e: "{\n  v = " + e.replace("\n", "\n  ") + ";\n}", 'listitem': lambda e: "[\n  " + e.replace("\n", "\n  ") + "\n]",
             # seventh round: multi-byte characters before the construct (a reader that mixes byte offsets and character indices reads every later gap shifted)
@@ -123,6 +125,14 @@ def iter_cells():
                     lp = lex(p)
                     if lp is None or code(lp[0]) != code(toks): continue
                     yield [cname, '%s|%s' % (toks[slot - 1][2], toks[slot][2]), kname, ctx], p, lp
+    # after the LAST token of the file (tenth round): trivia between the end of the expression and the end of the file
+    for cname, expr in CONSTRUCTS.items():
+        for ctx in ('top', 'lambda_body', 'lead_ws'):
+            base = CONTEXTS[ctx](expr); toks, tail = lex(base)
+            for kname, kval in TAIL_KINDS.items():
+                p = base + kval; lp = lex(p)
+                if lp is None or code(lp[0]) != code(toks): continue
+                yield [cname, '%s|EOF' % toks[-1][2], kname, ctx], p, lp
     for a in ATOMS + EMPTIES:
         for ctx, wrap in list(CONTEXTS.items()) + list(ATOM_CONTEXTS.items()):
             p = wrap(a) + '\n'; lp = lex(p)
